@@ -233,6 +233,8 @@ def big_sessions(ctx, first_sid, count):
         urows = [[a, b] for a, b in zip(useqs, useqs2)] if table else [[a] for a in useqs]
         from .. import lifted as lf
         big = lf.boundary_size(r + 2 + ctx.seed)
+        if r == count - 1 and not ctx.quick:
+            big = 2049
         idx = list(range(m)) + [ctx.rng.randrange(m) for _ in range(big - m)]
         ctx.rng.shuffle(idx)
         rows = [urows[i] for i in idx]
@@ -243,14 +245,22 @@ def big_sessions(ctx, first_sid, count):
                                 index=[f"c{i}" for i in range(big)][::-1])
         else:
             data = [[x[0] for x in rows], np.array([x[0] for x in rows], dtype=object)][r % 4 // 2]
+        # thorough tier only (optimal leaf ordering of 2049 copies costs minutes): one large input with the function's own default
+        # options (average linkage, optimal ordering, t = 6)
+        dflt = (r == count - 1) and not ctx.quick
+        if dflt:
+            method, t = "average", 6
         ev = dict(op="HierBig", t=t, single=(method == "single"), raised=False, flat=[], idx=[i + 1 for i in idx], uvec=uvec)
         try:
-            link, flat = prs.hierarchical_clustering(data, linkage_kws=dict(method=method), cluster_kws=dict(t=t, criterion="distance"))
+            if dflt:
+                link, flat = prs.hierarchical_clustering(data)
+            else:
+                link, flat = prs.hierarchical_clustering(data, linkage_kws=dict(method=method), cluster_kws=dict(t=t, criterion="distance"))
             ev["flat"] = [int(c) for c in flat]
             ia = np.array(idx)
             iu, ju = np.triu_indices(big, k=1)
             vec = np.array(D, dtype=float)[ia[iu], ia[ju]]             # the spec-checked distances lifted to the whole collection
-            want_link = hc.linkage(vec, method=method)
+            want_link = hc.linkage(vec, method=method, optimal_ordering=dflt)
             want_flat = hc.fcluster(want_link, t=t, criterion="distance")
             if not (np.shape(link) == np.shape(want_link) and np.allclose(link, want_link) and list(want_flat) == list(flat)):
                 scipy_bad.append((sid, method, t, [f"{big} rows: copies of"] + urows))
